@@ -7,7 +7,7 @@ git checkout -q -- . ; rm -f tests/seed_demo*.rs
 for f in $OUT/*.rs; do cp $f tests/; done
 for f in $OUT/*.sh $OUT/*.py; do [ -e "$f" ] && cp $f tests/ ; done
 demos=$(cd $OUT; ls *.rs | sed 's/\.rs$//')
-FEAT=""; grep -q verif_hooks $OUT/*.rs && FEAT="--features verif-hooks"
+FEAT=""; grep -q verif_hooks $OUT/*.rs 2>/dev/null && FEAT="--features verif-hooks"
 echo "== HEAD: demo must pass"
 for d in $demos; do timeout 900 cargo test --offline $FEAT --test $d 2>&1 | grep -E "^test result|FAILED|panicked|error(\[|:)" | head -5; done
 git apply $OUT/patch.diff || { echo "PATCH DOES NOT APPLY"; exit 3; }
